@@ -91,16 +91,24 @@ class Box:
         pad_top = 0
         pad_bottom = 0
         if strides is not None and skirt is not None:
+            ifm_height, ifm_width = ifm_shape.height, ifm_shape.width
+            offset_h = offset_w = 0
+            if split_offset is not None and split_shape is not None and len(new_start_coord) >= 3:
+                # The current op was combined with a split slice read: kernel, stride and padding apply to the output of
+                # the split op (defined by the read offset and the read shape). The box is therefore calculated relative
+                # to that slice and moved to the position of the slice in the tensor afterwards
+                offset_h, offset_w = split_offset[-3], split_offset[-2]
+                ifm_height, ifm_width = split_shape[-3], split_shape[-2]
+                for coord in (new_start_coord, new_end_coord, original_end_coord):
+                    coord[-3] -= offset_h
+                    coord[-2] -= offset_w
+                new_end_coord[-2] = min(new_end_coord[-2], ifm_width * upscaling_factor)
+                new_end_coord[-3] = min(new_end_coord[-3], ifm_height * upscaling_factor)
+
             if len(new_start_coord) >= 2:
                 stride = strides[2]
-                # if the current op was combined with a split slice read then the valid ifm range is given by the output
-                # of the split op (which is defined by the read offset and the read shape)
-                if split_offset is None:
-                    new_start_coord[-2] = max(new_start_coord[-2] * stride - skirt[1], 0)
-                    new_end_coord[-2] = min(new_end_coord[-2] * stride + skirt[3], ifm_shape.width)
-                else:
-                    new_start_coord[-2] = max(new_start_coord[-2] * stride - skirt[1], split_offset[-2])
-                    new_end_coord[-2] = min(new_end_coord[-2] * stride + skirt[3], split_offset[-2] + split_shape[-2])
+                new_start_coord[-2] = max(new_start_coord[-2] * stride - skirt[1], 0)
+                new_end_coord[-2] = min(new_end_coord[-2] * stride + skirt[3], ifm_width)
 
             if len(new_start_coord) >= 3:
                 stride = strides[1]
@@ -112,22 +120,26 @@ class Box:
                 pad_top = max(0, 0 - new_start_coord[-3]) + skirt_top_remainder
                 new_start_coord[-3] = max(new_start_coord[-3], 0)
 
-                if (new_end_coord[-3] * stride + skirt[2]) > (ifm_shape.height * upscaling_factor):
+                if (new_end_coord[-3] * stride + skirt[2]) > (ifm_height * upscaling_factor):
                     # pad_bottom is calculated based the diff between the end position of the weight kernel,
                     # after last stride and the ifm height.
-                    if upscaling_factor != 1 and original_end_coord[-3] > ifm_shape.height * upscaling_factor:
+                    if upscaling_factor != 1 and original_end_coord[-3] > ifm_height * upscaling_factor:
                         # Special case for Transpose Convolution with VALID padding.
-                        pad_bottom = original_end_coord[-3] - (ifm_shape.height * upscaling_factor)
+                        pad_bottom = original_end_coord[-3] - (ifm_height * upscaling_factor)
                     else:
                         k_start = new_start_coord[-3] - pad_top
-                        pad_bottom = max(
-                            0, k_start + total_stride + k_dilated_height - (ifm_shape.height * upscaling_factor)
-                        )
+                        pad_bottom = max(0, k_start + total_stride + k_dilated_height - (ifm_height * upscaling_factor))
 
                 # Adjust for upscaling
                 new_start_coord[-3] = max(new_start_coord[-3] // upscaling_factor, 0)
                 new_end_coord[-3] = new_end_coord[-3] * stride + skirt[2] + (skirt[2] % upscaling_factor)
-                new_end_coord[-3] = max(min(new_end_coord[-3] // upscaling_factor, ifm_shape.height), 1)
+                new_end_coord[-3] = max(min(new_end_coord[-3] // upscaling_factor, ifm_height), 1)
+
+            if offset_h or offset_w:
+                new_start_coord[-3] += offset_h
+                new_end_coord[-3] += offset_h
+                new_start_coord[-2] += offset_w
+                new_end_coord[-2] += offset_w
 
         # Wrap the IFMs of broadcasted binary elementwise ops
         # at the limits of the non-broadcasted volumes
